@@ -793,7 +793,7 @@ func init() {
 		probeF21(r, in.Dialect)
 	}
 	register("C01", func(r *Result, rng *rand.Rand, tier string) {
-		n := 700
+		n := 1500
 		if tier == "thorough" {
 			n = 40000
 		} else if tier == "search" {
